@@ -8,7 +8,7 @@ from . import common as C
 # --------------------------------------------------------------------------- transforms (oracle side)
 
 def tr_apply(op, data):
-    if op in ("keep", "fail", "slowkeep"):
+    if op in ("keep", "fail", "slowkeep", "barrierkeep"):
         return data
     if op == "shrink":
         return data[:2]
